@@ -64,7 +64,8 @@ info('C02',
      [A_BUILD], configs=BOTH)
 info('C03',
      'B (bounded, not proof): fingerprints (dense values, leg identity and content incl. flags, labels, qtotal) of every operand '
-     'unchanged after every non-in-place operation; in-place methods on a deep copy never change the source; '
+     'unchanged after every non-in-place operation, including derived operands (same labels in another order for +, -, '
+     'iadd_prefactor_other, binary_blockwise); in-place methods on a deep copy never change the source; '
      'ChargeInfo.make_valid leaves its argument alone; both configurations.',
      ['frame conditions by freshness analysis (effects mode of the interpreter): not built; bounded only',
       'MPS/MPO level aliasing: bounded only'],
@@ -103,10 +104,11 @@ info('C07',
      'with ghost tensors (site, nuL, nuR): MPS.get_B returns the requested exponents using the singular values of the adjacent bonds, '
      'MPS.get_theta(i,n,formL,formR) has formL/formR at the ends and exponent exactly 1 on every inner bond for every n >= 1, '
      'the loop body of convert_form (real get_B + set_B) re-establishes nu(_B[i]) == form[i] and touches no other site. '
-     'B (bounded, not proof): constructors (from_full, from_product_state, from_Bflat + canonical_form, from_singlets) and random '
+     'B (bounded, not proof): constructors (from_full, from_product_state, from_Bflat + canonical_form, from_singlets, from_product_mps_covering with random entangled local '
+     'states on interleaved site sets) and random '
      'histories of form conversions/canonicalisations against the dense state, Schmidt values and entropies at every cut, the '
      'recorded norm; infinite MPS under canonical_form_infinite1/2 keep their observables.',
-     ['numerical canonicalisation: bounded only', 'segment MPS and from_mps_covering: not covered'],
+     ['numerical canonicalisation: bounded only', 'segment MPS: not covered'],
      [])
 info('C08',
      'B (bounded, not proof): every measurement function named in the statement on random finite MPS of one charge sector for all '
@@ -208,7 +210,8 @@ info('C13',
      'environment read next is updated (contracts/c_sweeps.py). '
      'B (bounded, not proof): run() postconditions of two-site / single-site DMRG x mixers x diag_method x chi limits on chains of '
      '3-8 sites against exact diagonalisation in the charge sector of the initial state: normalised, canonical, same sector, reported '
-     'E = <H> within truncation, E >= E_exact, untruncated two-site DMRG with mixer exact in energy and state; VUMPS engines on the '
+     'E = <H> within truncation, E >= E_exact, untruncated two-site DMRG with mixer exact in energy and state; every relation of mixer_params.disable_after to the '
+     'number of sweeps (mixer switched off before / in / after the last sweep), finite and infinite: 1D Schmidt values, canonical; VUMPS engines on the '
      'infinite transverse-field Ising chain against the analytic energy per site.',
      ['convergence in general: this family cannot decide it', 'sweep schedules and environment bookkeeping as deductive obligations '
       'of BaseEnvironment: not built; the deductive contribution to C13 is the sweep schedule only'],
